@@ -1,4 +1,5 @@
 import MjProof.Lemmas.CTypeWf
+import MjProof.Lemmas.CTypeSpell
 /-
 C49 (parser half): `parse_type` and `decl()` of python/mujoco/introspect, as modelled in
 `Model/CType.lean` at character level (strings are lists of code points, `Str = List Nat`).
